@@ -214,3 +214,37 @@ def connectBlock (u : Utxo) (b : Block) : Except Err Utxo := do
     pure a.utxo
 
 end GocoinV.Spec.Connect
+
+/-! ## the abstraction from gocoin's record-level set to the spec's coin map -/
+namespace GocoinV.Spec.Connect
+open GocoinV.Connect (DB Rec key8 aGet OutPoint TxOut)
+
+/-- the coin that gocoin's set holds for an outpoint: the record filed under the first 8 txid bytes, provided it
+    IS the record of that txid.  `mtpOf h` = median time past of the block before height `h` (gocoin does not store
+    it; the chain context supplies it). -/
+def absGet (mtpOf : Nat → Nat) (db : DB) (op : OutPoint) : Option Coin :=
+  match aGet db (key8 op.hash) with
+  | none => none
+  | some r =>
+    if r.txid = op.hash then
+      (r.outs.getD op.vout none).map fun o => ⟨o.value, o.script, r.height, r.coinbase, mtpOf r.height⟩
+    else none
+
+def recCoins (mtpOf : Nat → Nat) (r : Rec) : List (Option TxOut) → Nat → Utxo
+  | [], _ => []
+  | none :: t, i => recCoins mtpOf r t (i + 1)
+  | some o :: t, i => (⟨r.txid, i⟩, ⟨o.value, o.script, r.height, r.coinbase, mtpOf r.height⟩) :: recCoins mtpOf r t (i + 1)
+
+/-- the same as an (executable) association list -/
+def absList (mtpOf : Nat → Nat) (db : DB) : Utxo := db.flatMap fun kr => recCoins mtpOf kr.2 kr.2.outs 0
+
+def isOk {ε α : Type} : Except ε α → Bool
+  | .ok _ => true
+  | .error _ => false
+
+def failsWith {ε α : Type} [DecidableEq ε] (r : Except ε α) (e : ε) : Bool :=
+  match r with
+  | .error e' => decide (e' = e)
+  | .ok _ => false
+
+end GocoinV.Spec.Connect
